@@ -23,7 +23,8 @@ Public API
     build_fgg(recipe, semiring_name, dtype, presentation=None) -> fggs.FGG
     build_fgg_info(...) -> (fgg, info)   info maps recipe rule/node/edge numbers to objects
     make_semiring(semiring_name, dtype)
-    canonical(recipe) -> str ; is_recursive ; nonterminal_deps ; sccs ; is_linearly_recursive
+    canonical(recipe) -> str ; is_recursive ; nonterminal_deps ; sccs ; is_linearly_recursive ; has_unit_cycle
+    classify_entry / compare_dense(dense_tensor, expected_nested, semiring_name, tol)
     reference_sum_products(recipe, semiring_name, max_iter, tol) -> RefValues (dict + .status)
     convert_weights(recipe, semiring_name) ; start_assignments(recipe) ; nested_get
     features_of(recipe) ; FEATURES
@@ -484,6 +485,31 @@ def reference_sum_products(recipe, semiring_name: str = "Real", max_iter: int = 
         res[x] = nested_from(shp, lambda idx, x=x: val[x][idx])
     res.iterations = total_iter
     return res
+
+
+def has_unit_cycle(recipe) -> bool:
+    """Viterbi view: is there a derivation cycle of log-weight exactly 0 through finite values?
+    Test: raise every finite entry of the max-plus least fixed point L of the cyclic SCCs by d > 0;
+    a zero-weight cycle makes F(L + d) >= L + d somewhere."""
+    ref = reference_sum_products(recipe, "Viterbi")
+    if ref.status != "finite":
+        return False
+    rules = _compile(recipe)
+    tws = convert_weights(recipe, "Viterbi")
+    tw = {t: _table(tws[t], shape_of(recipe, t)) for t in tws}
+    val = {x: _table(ref[x], shape_of(recipe, x)) for x in ref}
+    d = 0.5
+    for comp in sccs(recipe):
+        if not scc_is_cyclic(recipe, comp):
+            continue
+        up = dict(val)
+        for x in comp:
+            up[x] = {a: (v + d if v > -INF else v) for a, v in val[x].items()}
+        for x in comp:
+            new = _eval_nt(_Viterbi, rules[x], shape_of(recipe, x), tw, up)
+            if any(v > -INF and new[a] >= v + d - 1e-9 for a, v in val[x].items()):
+                return True
+    return False
 
 
 # --------------------------------------------------------------------------------------
